@@ -3,6 +3,9 @@
 import json, os, glob
 HERE = os.path.dirname(os.path.dirname(os.path.abspath(__file__)))
 CHECKS = {
+ "C07": dict(cat="fault_enumeration", tech="exhaustive single-deviation (thorough: pairwise) fault enumeration over every path of every base document x replacement menu, loaded strictly and with collect_errors through class loaders, from_dicts and from_yaml on the real code",
+             text="For 13 base documents (rules, one correlation per type incl. aliases/extended condition, filters, collections with global/repeat/reset) every path x 28 replacements (delete, wrong-typed scalars/lists/maps, out-of-range values, non-string keys) is applied; strict loading must succeed or raise a SigmaError, collecting must never raise, errors non-empty iff strict raises, first collected error equals the strict exception.",
+             note="YAML-representable data only; SigmaError.__eq__ defines error equality", ref="§3 C07"),
  "C19": dict(cat="model_checking", tech="exhaustive exploration of rule orders x validator orders (instance set replaced by an ordered list) x exclusion tables x operation histories (validate / convert / to_dict) on the real SigmaValidator; reference model for unused / dangling / uniqueness groups; before/after snapshots",
              text="(A) all condition trees up to the bound over names and selectors: dangling-detection and dangling-condition issue sets equal the reference; (B) every built-in validator alone and all together in every history of <= 3 operations leave dict form, queries (two backend configurations) and structure unchanged and report the same issues on every run; (C) every ordered collection of <= 3-4 rules over id/title/filename combinations, every order of the stateful validators and exclusion tables: issue multiset equals the reference groups.",
              note="attacktag and d3_fendtag validators need network access and are excluded; issue list order is not judged", ref="§3 C19"),
